@@ -76,7 +76,7 @@ func main() {
 		name string
 		run  func()
 	}{
-		{"regression", runRegression}, {"bytes", runEveryByte}, {"short", runShort}, {"sub4", runSubAlphabets}, {"resident", runResident}, {"runs", runRunStructured},
+		{"regression", runRegression}, {"bytes", runEveryByte}, {"triplets", runTriplets}, {"short", runShort}, {"sub4", runSubAlphabets}, {"resident", runResident}, {"runs", runRunStructured},
 		{"macro", runMacro}, {"nonlatin1", runNonLatin1}, {"hints", runHints}, {"capacity", runCapacity}, {"sizes", runRequestedSizes},
 	}
 	only := os.Getenv("C02_ONLY") // development aid: comma-separated family names; the run is then marked incomplete
@@ -212,6 +212,8 @@ var literals = []string{
 	"AAAAAAAAA", "HELLO", "Hello World", "123456", "ABC<>ABC<>ABC", "*\r>*\r>*\r>",
 	// escape-like sequences (conventions a reader or writer might "understand")
 	`\\\\fileserver\\share\\report.txt`, `a\\\\b`, `\\n`, `\\000026`, `\\\\000026`, `]d1`, `]d2x`, `%25`, `%%`, `%5C%5C`, `\\u0041`, `&amp;`, `&#65;`, `\\"`, `$$`, `${x}`, `\\\\\\\\`, `\\\\\\`, `a\\`, `~~`, `~d029`, `~1`, `^^`, "\x1d\x1d", "\x1dA\x1d", "\x1e\x04", "[)>\x1e", "\x00\x00", "\t\t", "\r\n\r\n",
+	// Latin-1 texts whose single-byte form is well-formed UTF-8 (mojibake look-alikes)
+	"\u00c3\u00a9", "n\u00c2\u00b01", "\u00e2\u0082\u00ac5", "caf\u00c3\u00a9", "\u00c3\u00a9\u00c3\u00a9\u00c3\u00a9", "\u00c3\u00a9\u00e9", "\u00d0\u009f\u00d1\u0080", "A\u00c3\u00a9Z",
 }
 
 func runRegression() {
@@ -240,6 +242,39 @@ func runEveryByte() {
 			evalCase(l, "byte", c+"A"+c, hints{}, lvMatrix)
 			evalCase(l, "byte", "a"+c+c+"a", hints{}, lvMatrix)
 		})
+}
+
+// runTriplets: C40, Text and X12 pack three values 0..39 into 1600*a + 40*b + c + 1; the extremes of
+// that range (0x0001 .. 0xFA00) come from triples of the first and last characters of each set,
+// which the alphabets of the other families (one representative per class) never form. Every
+// character of the three basic sets repeated six and seven times (aligned and misaligned triples),
+// and every triple over {first, middle, last} character of each set, twice in a row, bare and
+// behind one and two characters of the same set.
+func runTriplets() {
+	sets := []struct{ name, chars string }{
+		{"C40", " 0123456789ABCDEFGHIJKLMNOPQRSTUVWXYZ"},
+		{"Text", " 0123456789abcdefghijklmnopqrstuvwxyz"},
+		{"X12", "\r*> 0123456789ABCDEFGHIJKLMNOPQRSTUVWXYZ"},
+	}
+	var texts []string
+	for _, st := range sets {
+		for _, c := range st.chars {
+			texts = append(texts, strings.Repeat(string(c), 6), strings.Repeat(string(c), 7), strings.Repeat(string(c), 12))
+		}
+		ext := []byte{st.chars[0], st.chars[len(st.chars)/2], st.chars[len(st.chars)-1], st.chars[len(st.chars)-2]}
+		for _, a := range ext {
+			for _, b := range ext {
+				for _, c := range ext {
+					t := string([]byte{a, b, c})
+					texts = append(texts, t+t, string(ext[2])+t+t, string(ext[2])+string(ext[0])+t+t, t+t+t+t)
+				}
+			}
+		}
+	}
+	texts = uniq(texts)
+	chk.Range(fmt.Sprintf("packed triples at the ends of the value range: every character of the C40, Text and X12 basic sets x 6, 7 and 12 repetitions, and every triple over {first, middle, last, last-but-one} character of each set, doubled and quadrupled, bare and behind one or two characters [%d texts]", len(texts)), len(texts),
+		func(i int) string { return q(texts[i]) },
+		func(l *mc.Local, i int) { evalCase(l, "triplets", texts[i], hints{}, lvMatrix) })
 }
 
 func runShort() {
@@ -647,4 +682,16 @@ func replay() {
 		}
 	}
 	l.Merge()
+}
+
+func uniq(in []string) []string {
+	seen := map[string]bool{}
+	var out []string
+	for _, s := range in {
+		if !seen[s] {
+			seen[s] = true
+			out = append(out, s)
+		}
+	}
+	return out
 }
